@@ -97,6 +97,12 @@ func newEpoch() int { epochCtr++; return epochCtr }
 
 func (s *State) hset(name string, t *Term) {
 	heapSorts[name] = t.S
+	if t.Op == "store" && lateDef != nil {
+		// name every written version: keeps terms small and quantifier patterns free of stores
+		nm := Fresh("Hs."+name, t.S)
+		lateDef(Eq(nm, t))
+		t = nm
+	}
 	s.heap[name] = t
 }
 
